@@ -58,7 +58,7 @@ From Coq Require Import ZArith NArith List Bool Lia.
 From CrabV Require Import Base.ZInf Scalar.Itv Scalar.ItvSound Ir.Syntax Dom.ItvEnv Dom.ItvEnvSound
      Dom.ItvSolverSound Dom.ItvDomain Dom.History Dom.ArraySmash Dom.ArraySmashSound
      Dom.ArrayAdaptCore Dom.ArrayAdaptCoreSound.
-From CrabV Require Dom.ArrayAdapt Dom.ArrayAdaptSound.
+From CrabV Require Dom.ArrayAdapt Dom.ArrayAdaptSound Dom.ArrayAdaptWf.
 Import ListNotations.
 Local Open Scope Z_scope.
 
@@ -330,3 +330,42 @@ Print Assumptions C14_adaptive_join_keeps_tracked.
 Print Assumptions C14_adaptive_nonvacuous_ok.
 Print Assumptions C14_adaptive_nonvacuous_run.
 Print Assumptions C14_adaptive_nonvacuous_reached.
+
+(* ---- the well-formedness invariant awf (Dom/ArrayAdaptWf.v): it holds for top / bottom, is preserved by every
+   covered operation and implies the four executable checks that the join theorems above take as hypotheses;
+   the history theorem then needs, for a join or widening, only that both operands are not bottom (and the two
+   semantic tracked-cell conditions) ---- *)
+Theorem C14_adaptive_wf_join_checks : forall esz onecell p X Y cX cY,
+  ArrayAdaptWf.awf esz X -> ArrayAdaptWf.awf esz Y ->
+  ArrayAdaptSound.inv esz X -> ArrayAdaptSound.inv esz Y ->
+  ArrayAdaptWf.join_ok_wf esz onecell X Y cX cY -> ArrayAdaptSound.join_ok esz onecell p X Y cX cY.
+Proof. exact ArrayAdaptWf.join_ok_of_wf. Qed.
+
+Theorem C14_adaptive_step_sound_wf_partial : forall esz onecell, (forall a, 0 < esz a) ->
+  forall p rs cs o rs', ArrayAdaptWf.awf_all esz rs ->
+  ArrayAdaptSound.rel esz onecell rs cs -> ArrayAdaptWf.hop_okA_wf esz onecell p rs cs o ->
+  ArrayAdapt.dstep p rs o = Some rs' ->
+  ArrayAdaptSound.rel esz onecell rs' (ArrayAdaptSound.cstepA esz onecell cs o) /\ ArrayAdaptWf.awf_all esz rs'.
+Proof. exact ArrayAdaptWf.dstep_sound_wf. Qed.
+
+Theorem C14_adaptive_history_sound_wf_partial : forall esz onecell, (forall a, 0 < esz a) ->
+  forall p h rs cs rs', ArrayAdaptWf.awf_all esz rs ->
+  ArrayAdaptSound.rel esz onecell rs cs -> ArrayAdaptWf.hist_okA_wf esz onecell p rs cs h ->
+  ArrayAdapt.drun p rs h = Some rs' ->
+  ArrayAdaptSound.rel esz onecell rs' (fold_left (ArrayAdaptSound.cstepA esz onecell) h cs) /\
+  ArrayAdaptWf.awf_all esz rs'.
+Proof. exact ArrayAdaptWf.dhistory_sound_wf. Qed.
+
+(* histories that start from top states: no hypothesis on the initial registers *)
+Theorem C14_adaptive_history_sound_wf_top_partial : forall esz onecell, (forall a, 0 < esz a) ->
+  forall p h n rs',
+  ArrayAdaptWf.hist_okA_wf esz onecell p (repeat ArrayAdapt.a_top n) (repeat (fun _ => True) n) h ->
+  ArrayAdapt.drun p (repeat ArrayAdapt.a_top n) h = Some rs' ->
+  ArrayAdaptSound.rel esz onecell rs' (fold_left (ArrayAdaptSound.cstepA esz onecell) h (repeat (fun _ => True) n)) /\
+  ArrayAdaptWf.awf_all esz rs'.
+Proof. exact ArrayAdaptWf.dhistory_sound_wf_top. Qed.
+
+Print Assumptions C14_adaptive_wf_join_checks.
+Print Assumptions C14_adaptive_step_sound_wf_partial.
+Print Assumptions C14_adaptive_history_sound_wf_partial.
+Print Assumptions C14_adaptive_history_sound_wf_top_partial.
